@@ -7,7 +7,9 @@ cd /repo || exit 2
 if ! git diff --quiet; then echo "/repo has local changes; refusing"; exit 2; fi
 git apply "$patch" || { echo "patch does not apply"; exit 2; }
 for p in "$@"; do
+  cp /verif/evidence/$p.json /verif/work/evidence.$p.keep 2>/dev/null   # the evidence of a seeded run must not replace the real one
   ( cd /verif && timeout 1800 python3 verif.py check "$p" --tier quick 2>&1 | grep -E "^VIOLATION|^\[$p\] tier|ENGINE-ERROR|violation in" | head -6 ; echo "exit=${PIPESTATUS[0]}" )
 done
+for p in "$@"; do [ -f /verif/work/evidence.$p.keep ] && mv /verif/work/evidence.$p.keep /verif/evidence/$p.json; done
 git -C /repo checkout -- . && git -C /repo status --short | head -3
 rm -f /verif/replays/*.json
